@@ -19,7 +19,7 @@ import numpy as np
 from . import common as C
 
 PID = "C17"
-OWN_FILES = ["Model/Dgc.v", "Model/DgcRun.v", "Proofs/DgcFacts.v", "Proofs/DgcGeom.v", "Proofs/DgcEval.v", "Proofs/DgcMain.v"]
+OWN_FILES = ["Model/Dgc.v", "Model/DgcRun.v", "Proofs/DgcFacts.v", "Proofs/DgcGeom.v", "Proofs/DgcEval.v", "Proofs/DgcMain.v", "Model/DgcAsg.v", "Proofs/DgcNorm.v"]
 
 
 # ---------------------------------------------------------------- build of the property's own files
